@@ -6,6 +6,7 @@ from gen import SeqGen, canonical_names, basename
 
 ID = "C20"
 HEAP_SUMMARY = True      # end every program with the reference-level observation (BB.Model.Heap vs id() walk)
+UNIVERSAL_EVERY = 8      # every n-th case is a feature-rich random program (props/universal.py)
 LEAN_MODULE = "BB.Properties.C20"
 QUICK_N = 480
 THOROUGH_N = 5000
